@@ -236,11 +236,7 @@ func (e *Exec) addAssumption(c *term.Term) {
 		panic(pathEnd{"assume", ""})
 	}
 	e.assume(c, true)
-	if r == smt.Sat {
-		e.model = e.fetchModel()
-	} else {
-		e.model = nil
-	}
+	e.model = nil // re-established lazily
 }
 
 func (e *Exec) assert(b Bool, msg string) {
@@ -268,7 +264,8 @@ func (e *Exec) assert(b Bool, msg string) {
 			e.assume(b.T, true)
 			return
 		case smt.Sat:
-			e.recordViolation("assert", msg, e.fetchModel())
+			m, _ := e.solveModel(nc)
+			e.recordViolation("assert", msg, m)
 		default:
 			e.St.Limits["assertion undecided (solver unknown): "+msg]++
 			return
@@ -280,7 +277,7 @@ func (e *Exec) assert(b Bool, msg string) {
 		panic(pathEnd{"violation-end", msg})
 	}
 	e.assume(b.T, true)
-	e.model = e.fetchModel()
+	e.model = nil
 }
 
 // ---------------------------------------------------------------- stdlib intrinsics
